@@ -292,4 +292,9 @@ pub struct Program {
     pub procs: Vec<Proc>,
     /// emit DECLARE lines
     pub declare: bool,
+    /// where the DECLARE lines go: 0 = at the top, 1 = after the main module's statements (before the subprogram
+    /// bodies), 2 = after the subprogram bodies
+    pub declare_where: u8,
+    /// DECLARE lines that differ from their subprogram: (index of the subprogram, the signature to declare instead)
+    pub declare_as: Vec<(usize, Proc)>,
 }
